@@ -17,6 +17,7 @@ import (
 	"os/exec"
 	"path"
 	"reflect"
+	"regexp"
 	"sort"
 	"strconv"
 	"strings"
@@ -523,7 +524,13 @@ func exRandomGraph(r *rng, o exGenOpts) *exGraph {
 				n = rootMin
 			}
 			for k := 0; k < n; k++ {
-				es = append(es, exElem{doc: di, name: prefix + strconv.Itoa(k)})
+				name := prefix + strconv.Itoa(k)
+				if r.chance(1, 3) {
+					// names that hold the text of an escape, or characters a reference has to escape: a pointer designates them
+					// after exactly one round of decoding
+					name += r.pick([]string{"%41", "/a%20b", "/{id}", " b", "~0x", "/100%", "#frag", "?q=1"})
+				}
+				es = append(es, exElem{doc: di, name: name})
 			}
 		}
 		for i := len(es) - 1; i > 0; i-- {
@@ -1718,6 +1725,18 @@ var exUnionRefs = []string{"#/definitions/tuple/items", "#/definitions/tuple/ite
 	"#/definitions/typed/additionalProperties", "#/definitions/typed/not", "#/definitions/plain/not", "#/definitions/plain/items", "#/definitions/plain/additionalProperties",
 	"#/X-Shared/thing", "#/x-shared/thing", "#/x-Mixed/thing", "#/X-SHARED/thing", "#/definitions/ext/X-Inner/in", "#/definitions/ext/x-inner/in", "#/definitions/ext/x-INNER/in"}
 
+var exRefTextRe = regexp.MustCompile(`"\$ref"\s*:\s*"([^"]*)"`)
+
+// exOnlyFragmentRefs: every `$ref` of the document is fragment-only (the document does not even name its own file).
+func exOnlyFragmentRefs(doc json.RawMessage) bool {
+	for _, m := range exRefTextRe.FindAllSubmatch(doc, -1) {
+		if !bytes.HasPrefix(m[1], []byte("#")) {
+			return false
+		}
+	}
+	return true
+}
+
 func genExpandCases(r *rng, n int, tier string, cw *caseWriter) {
 	exQuiet()
 	graphs := exGraphs(r.fork(1), n, tier, true)
@@ -1777,7 +1796,7 @@ func genExpandCases(r *rng, n int, tier string, cw *caseWriter) {
 			m := orderedMap{{"op", "expand_spec"}, {"nt", len(g.Refs) > 0}, {"tags", g.Tags}, {"docs", g.Docs}, {"root", g.Root}, {"opts", o},
 				{"missing", append([]string{}, g.Missing...)}, {"acyclic", g.Acyclic}, {"unf_depth", depth}, {"go", view}}
 			emit(m)
-			if g.Acyclic && len(g.Docs) == 1 && len(g.Missing) == 0 && !o.Skip && !g.hasTag("id") {
+			if g.Acyclic && len(g.Docs) == 1 && len(g.Missing) == 0 && !o.Skip && !g.hasTag("id") && exOnlyFragmentRefs(g.Docs[g.Root]) {
 				// the same call by a caller who passes no options at all (the document is self-contained)
 				cn := g.call("expand_spec", o)
 				cn.Entry = "nil_options"
